@@ -14,6 +14,15 @@ Tie to the source (DESIGN.md 4.2, 4.3, 6.10):
     roots) of the real `Unit` class whose callables are exact affine maps that log
     (unit id, direction); log and exact result of the real convert() must equal
     the model's (trace_tbl / convert_tbl over Q), compared inside Coq;
+  * RE-ENTRANT unit definitions: user-defined units (real `Unit` class) whose
+    callables themselves call units.convert on two earlier units (yard = Unit(meter,
+    lambda m: convert(meter, inch, m) / 36, ...)), with further units chained below
+    them and such definitions nested; the complete log of callable applications
+    (nested activations included) and the exact result of the real convert() must
+    equal trace_built / convert_built of the model (Units/Model.v: every activation
+    of convert() works on its own chains), compared inside Coq (`reent_ok`); the
+    oracle `check_reent` states identity / there-and-back / composition / linearity
+    exactly on such units;
   * NUMERICALLY: all 16 ordered pairs and 64 triples of the built-in units,
     the sonar drivers (AnalogInputSim; the HAL simulation has no counter period,
     so getPeriod() of a subclass of the real wpilib.Counter is overridden) and
